@@ -1,6 +1,7 @@
 (* C08 — returned solver dictionaries are complete, closed and faithful to the input. *)
-From Coq Require Import List Bool String Arith.
-From OdeVerif Require Import Gen.ParamFilterGen Model.Term Model.Split Model.System Model.Output Proofs.OutputP Proofs.AnalysisP.
+From Coq Require Import List Bool String Arith Ascii Permutation.
+From OdeVerif Require Import Gen.ParamFilterGen Model.Term Model.Split Model.System Model.Output Proofs.OutputP Proofs.AnalysisP
+  Model.InputCheck Model.InitialValues Proofs.InputCheckP Proofs.InitialValuesP.
 Import ListNotations.
 Open Scope string_scope.
 
@@ -54,3 +55,34 @@ Theorem c08_numeric_update_symbols_closed :
     Forall (atoms_in K ok) (rA r) -> atoms_in K ok (rb r) -> atoms_in K ok (rc r) -> atoms_in K ok (numeric_update K s r).
 Proof. exact numeric_update_atoms. Qed.
 Print Assumptions c08_numeric_update_symbols_closed.
+
+(* one initial value per state variable, and it is the one the user supplied for it: for every entry the input
+   check accepts with an "initial_values" dictionary, the value returned for x^(k) is the value listed under the
+   key with k primes (there is exactly one such key), for k = 0 .. order-1 *)
+Theorem c08_initial_values_by_name :
+  forall (V : Type) (reserved : list str) (marker : str) (e : entry) (sym : str) (order : nat) (kvs : list (str * V)),
+    check_entry reserved marker e = Accepted sym order -> e_ivs e = Some (map fst kvs) ->
+    List.length (output_ivs order kvs) = order /\
+    forall k, k < order -> exists key v, In (key, v) kvs /\ count prime key = k /\ nth k (output_ivs order kvs) None = Some v
+                                      /\ (forall key' v', In (key', v') kvs -> count prime key' = k -> (key', v') = (key, v)).
+Proof.
+  intros V reserved marker e sym order kvs Hacc Hivs.
+  apply check_entry_accepts_iff in Hacc. destruct Hacc as [s [_ [_ [_ [Hok _]]]]].
+  unfold iv_ok in Hok. rewrite Hivs in Hok. destruct (e_has_iv e); [destruct Hok|].
+  destruct Hok as [Hl [Hg Hnd]]. rewrite map_length in Hl.
+  exact (output_by_name V sym order kvs Hl Hg Hnd).
+Qed.
+Print Assumptions c08_initial_values_by_name.
+
+(* ... and listing the keys in another order changes nothing *)
+Theorem c08_initial_values_order_irrelevant :
+  forall (V : Type) (reserved : list str) (marker : str) (e : entry) (sym : str) (order : nat) (kvs kvs' : list (str * V)),
+    check_entry reserved marker e = Accepted sym order -> e_ivs e = Some (map fst kvs) -> Permutation kvs kvs' ->
+    output_ivs order kvs = output_ivs order kvs'.
+Proof.
+  intros V reserved marker e sym order kvs kvs' Hacc Hivs P.
+  apply check_entry_accepts_iff in Hacc. destruct Hacc as [s [_ [_ [_ [Hok _]]]]].
+  unfold iv_ok in Hok. rewrite Hivs in Hok. destruct (e_has_iv e); [destruct Hok|].
+  destruct Hok as [_ [_ Hnd]]. exact (output_order_irrelevant V order kvs kvs' P Hnd).
+Qed.
+Print Assumptions c08_initial_values_order_irrelevant.
